@@ -152,6 +152,10 @@ class Run:
             else:
                 where = 'in-target'     # inside run() but in a helper frame
             tag = C.landing_tag(l)
+            if where == 'before-target' and '[finally' in tag:
+                # (a persistent worker that never got an input has no target call to look at: a landing in the finally block of the
+                # run loop means that its work phase - waiting for input - was already over, it had finished on its own)
+                where = 'after-target'
             if where in ('in-target', 'before-target'):
                 allowed = {terminated}
                 # persistent: an item that already failed on its own before the landing keeps its outcome
